@@ -114,9 +114,17 @@ func (t Type) pair() (Type, Type) {
 	return (t >> typeShift) & typeMask, (t >> (typeShift * 2))
 }
 
+// isSafeStr reports whether values of this type can be printed in full when
+// nested: only struct references can form cycles, so slices and maps are
+// safe exactly when their element type is.
 func (t Type) isSafeStr() bool {
 	switch t.base() {
-	case TypeSlice, TypeMap, TypeStruct:
+	case TypeSlice:
+		return t.value().isSafeStr()
+	case TypeMap:
+		_, v := t.pair()
+		return v.isSafeStr()
+	case TypeStruct:
 		return false
 	}
 	return true
